@@ -5,6 +5,7 @@ import (
 	"context"
 	"fmt"
 	"io"
+	"net/http"
 	"strings"
 	"sync"
 	"time"
@@ -48,6 +49,7 @@ func (c03) Plan(tier string, seed int64) []core.Scenario {
 	}
 	for i := 0; i < nB; i++ {
 		out = append(out, core.Scenario{Kind: "busy-blackhole", Seed: seed*7873 + int64(i), N: map[string]int{"every": []int{100, 40}[i%2], "noise": i % 3}, S: map[string]string{}})
+		out = append(out, core.Scenario{Kind: "busy-blackhole", Seed: seed*7873 + int64(i) + 500, N: map[string]int{"every": []int{100, 40}[i%2], "noise": i % 3, "midframe": 1}, S: map[string]string{}})
 	}
 	out = append(out, core.Scenario{Kind: "stalled-write", Seed: seed * 7867, N: map[string]int{"mb": 32}, S: map[string]string{}})
 	// calls issued after the connection loop has ended: no-reconnect loss, closer, client context cancelled
@@ -158,7 +160,18 @@ func runBusyBlackhole(sc core.Scenario, r *core.R) {
 		}
 	}()
 	time.Sleep(3 * every)
-	env.Px.KillAll(wsproxy.BLACKHOLE)
+	if sc.I("midframe") == 1 {
+		// the silence begins in the middle of a frame of a large response
+		env.Px.Arm(&wsproxy.Fault{Kind: wsproxy.BLACKHOLE, Dir: wsproxy.S2C, Pos: 2, Match: func(fi wsproxy.FrameInfo) bool { return fi.Len > 100000 }})
+		t := Tok("b")
+		o := Go(t, func() (string, error) { return cl.Big(bg, t, 1<<20) })
+		mu.Lock()
+		calls = append(calls, o)
+		mu.Unlock()
+		time.Sleep(100 * time.Millisecond)
+	} else {
+		env.Px.KillAll(wsproxy.BLACKHOLE)
+	}
 	core.Log.Note("h.fault.fired", "BLACKHOLE while calling")
 	// the application keeps calling; the first call that went into the hole must come back
 	time.Sleep(2 * every)
@@ -491,6 +504,32 @@ func customClient(rpc *jsonrpc.RPCServer, out *svc.Client, opts ...jsonrpc.Optio
 	return jsonrpc.NewCustomClient("S", []interface{}{out}, customDo(rpc), opts...)
 }
 
+// recordingRT records request and response bodies of an http client.
+type recordingRT struct {
+	mu   sync.Mutex
+	reqs []string
+	resp []string
+}
+
+func (rt *recordingRT) RoundTrip(rq *http.Request) (*http.Response, error) {
+	var body []byte
+	if rq.Body != nil {
+		body, _ = io.ReadAll(rq.Body)
+		rq.Body = io.NopCloser(bytes.NewReader(body))
+	}
+	resp, err := http.DefaultTransport.RoundTrip(rq)
+	if err != nil {
+		return resp, err
+	}
+	rb, _ := io.ReadAll(resp.Body)
+	resp.Body = io.NopCloser(bytes.NewReader(rb))
+	rt.mu.Lock()
+	rt.reqs = append(rt.reqs, string(body))
+	rt.resp = append(rt.resp, string(rb))
+	rt.mu.Unlock()
+	return resp, nil
+}
+
 func runPlain04(sc core.Scenario, r *core.R) {
 	tr := sc.Str("transport")
 	env := NewEnv(EnvOpt{})
@@ -498,8 +537,24 @@ func runPlain04(sc core.Scenario, r *core.R) {
 	var cl svc.Client
 	var closer jsonrpc.ClientCloser
 	var err error
+	rec := &recordingRT{}
 	if tr == "custom" {
-		closer, err = customClient(env.RPC, &cl)
+		closer, err = jsonrpc.NewCustomClient("S", []interface{}{&cl}, func(ctx context.Context, body []byte) (io.ReadCloser, error) {
+			var buf bytes.Buffer
+			env.RPC.HandleRequest(ctx, bytes.NewReader(body), &buf)
+			rec.mu.Lock()
+			rec.reqs = append(rec.reqs, string(body))
+			rec.resp = append(rec.resp, buf.String())
+			rec.mu.Unlock()
+			return io.NopCloser(&buf), nil
+		})
+	} else if tr == "http" {
+		var c *Client
+		c, err = env.NewClient(ClientOpt{Transport: tr, Opts: []jsonrpc.Option{jsonrpc.WithHTTPClient(&http.Client{Transport: rec})}})
+		if c != nil {
+			cl = c.Client
+			closer = c.Close
+		}
 	} else {
 		var c *Client
 		c, err = env.NewClient(ClientOpt{Transport: tr})
@@ -535,6 +590,31 @@ func runPlain04(sc core.Scenario, r *core.R) {
 		}
 		notes = append(notes, t)
 	}
+	// notifications whose handler fails: still no id, still no reply
+	var failNotes []string
+	for i := 0; i < 10; i++ {
+		t := Tok("n")
+		if err := cl.NoteFail(ctx, t); err != nil {
+			r.Violate("plain-notify-failed", "%s NoteFail(%s) err=%v (a notification returns no handler error to the caller)", tr, t, err)
+		}
+		failNotes = append(failNotes, t)
+	}
+	notes = append(notes, failNotes...)
+	// what went over the wire for notification-tagged calls (http / custom: bodies are recorded)
+	rec.mu.Lock()
+	for i, rq := range rec.reqs {
+		if !strings.Contains(rq, `"method":"S.Note`) {
+			continue
+		}
+		r.Obs("notification_exchanges_inspected", 1)
+		if strings.Contains(rq, `"id"`) {
+			r.Violate("notify-with-id", "%s: a notification-tagged call was sent with an id: %s", tr, core.Trunc(rq, 160))
+		}
+		if strings.TrimSpace(rec.resp[i]) != "" {
+			r.Violate("notification-answered", "%s: a notification-tagged call yielded a response body: request %s -> reply %s", tr, core.Trunc(rq, 120), core.Trunc(rec.resp[i], 160))
+		}
+	}
+	rec.mu.Unlock()
 	// a final id-bearing call on ws flushes earlier notifications through the sequential executor
 	last := Tok("z")
 	cl.Echo(ctx, last, "")
